@@ -59,4 +59,26 @@ example :
     (ideal txs (fun _ => 0) 1) = { reads := [(0, 5)], out := .ok [(1, 6)] 5 } := by
   decide
 
+/-- **stale_source_read_is_not_in_order** (necessity of the read hypothesis; the shape of seeded
+    change C01d).  tx 0 sets x; tx 1 writes y := 7 only while x is unset; tx 2 stores y + 1.  A run of
+    tx 2 that read y = 7 — the write of a DISCARDED attempt of tx 1, which ran before tx 0 — is a
+    possible run of its program, but it is not the in-order run, and the value it read is not the
+    view of the final write sets: a validation that lets it pass (because the entry it read from has
+    since been removed and no earlier writer is left) commits z = 8 instead of z = 1. -/
+theorem stale_source_read_is_not_in_order :
+    let txs : TxId → Prog := fun i =>
+      if i = 0 then .done [(0, 1)] 0
+      else if i = 1 then .read 0 (fun x => if x = 0 then .done [(1, 7)] 0 else .done [] 0)
+      else .read 1 (fun y => .done [(2, y + 1)] 0)
+    let stale : Run := { reads := [(1, 7)], out := .ok [(2, 8)] 0 }
+    Consistent (txs 2) stale.reads stale.out ∧
+    stale ≠ ideal txs (fun _ => 0) 2 ∧
+    (ideal txs (fun _ => 0) 2) = { reads := [(1, 0)], out := .ok [(2, 1)] 0 } ∧
+    view (idealWrites txs (fun _ => 0)) (fun _ => 0) 2 1 = 0 := by
+  refine ⟨?_, ?_, ?_, ?_⟩
+  · simp [Consistent]
+  · decide
+  · decide
+  · decide
+
 end Grevm.Block
